@@ -194,6 +194,8 @@ def run_property(pm, tier="quick", seed=0, update_baseline=False):
             elif outcome and outcome.get("confirmed") is False:
                 # spurious counter-model: try the bounded search of this property for a real witness before giving up
                 rep.undecided.append((oid, "counter-model does not replay on the real code (engine imprecision / weak callee contract)"))
+            elif r.get("candidate"):
+                rep.undecided.append((oid, "solver unknown with quantified facts; the candidate input of the instantiated query could not be replayed"))
             else:
                 # exits may be renumbered by an edit: the clause counts as proved at baseline if it was proved on EVERY exit there
                 stem = oid.split("@")[0] + "@"
